@@ -2512,10 +2512,19 @@ class sptensor:
             addsubs = tt_irenumber(value, self.shape, key)
             addvals = value.vals
             if addsubs.size > 0:
-                # an index repeated inside a key list addresses one entry: the last
-                # value written to it is kept (as for numpy arrays)
-                _, last = np.unique(addsubs[::-1], axis=0, return_index=True)
-                keep = np.sort(addsubs.shape[0] - 1 - last)
+                # an index repeated inside a key list addresses one entry several
+                # times: what its last repetition addresses is kept, zeros
+                # included (as for numpy arrays), whatever the stored order of value
+                keep = np.ones(addsubs.shape[0], dtype=bool)
+                m = 0
+                for key_n in key:
+                    if isinstance(key_n, slice):
+                        m = m + 1
+                    elif not isinstance(key_n, (float, int, np.integer)):
+                        idx = list(key_n)
+                        last = [x not in idx[i + 1 :] for i, x in enumerate(idx)]
+                        keep &= np.array(last)[value.subs[:, m]]
+                        m = m + 1
                 addsubs = addsubs[keep]
                 addvals = addvals[keep]
             if newsubs.size > 0 and addsubs.size > 0:
